@@ -298,4 +298,13 @@ def extra_cases(tier, seed):
                                             "pvars": ["p", "q"] if two else ["p"], "lattice": False, "far": False},
                                     "prows": {"p": [[0.6]], "q": [[0.3, 0.9]]} if two else {"p": [[0.6]]},
                                     "fix": ["p"], "two_stage": False, "extra_name": j % 2 == 0, "n": 9, "rng": seed * 100 + 20 + j})
+    # two-variable radius with a Python default: for its second variable (fixed alone / together with the
+    # first) and for a third argument that is never supplied (first or second variable fixed alone)
+    for j, (flag, fix) in enumerate((("pydef", ["q"]), ("pydef", ["p", "q"]), ("kdef", ["p"]), ("kdef", ["q"]))):
+        rad = dict(A2([0.6], [0.5], [0.3]), **{flag: True})
+        circ = {"t": "circle", "var": "x", "c": C(0.5, -0.25), "r": rad}
+        for E in (circ, {"t": "boundary", "a": circ}):
+            out.append({"dom": {"E": E, "kind": "boundary" if E["t"] == "boundary" else "interior", "pvars": ["p", "q"],
+                                "lattice": False, "far": False}, "prows": {"p": [[0.6]], "q": [[0.3, 0.9]]},
+                        "fix": fix, "two_stage": False, "extra_name": False, "n": 9, "rng": seed * 100 + 80 + j})
     return out
